@@ -280,7 +280,7 @@ def run(ctx):
 
     # ---------------------------------------------------------------- R3
     r = ctx.rule("C13-R3", "TABLE", "arguments and options are enumerated own and inherited; both names of an option "
-                 "are printed when it has both", reference=6)
+                 "are printed when it has both", reference=7)
     ch = ctx.func("CommandHelp._render_help")
     args_calls = [c for c in q.calls(ch) if isinstance(c.func, ast.Attribute) and c.func.attr == "get_arguments"]
     if args_calls and any(not c.args and not c.keywords for c in args_calls):
